@@ -438,8 +438,7 @@ def cases_for(cfg, tier, seed):
     yield from gen_cases.pair_cases(N, M, tier, ids)
     if cfg.abits[3] == '0':   # not always-equal: also unequal allocator ids
         yield from gen_cases.pair_cases(N, M, tier, (1, 2))
-    if tier == 'thorough':
-        yield from gen_cases.double_fault_cases(N, M, tier)
+    yield from gen_cases.double_fault_cases(N, M, tier)     # (both tiers: a second fault inside a roll-back handler, ~1 % of the quick lines)
     yield from gen_cases.random_histories(N, M, seed * 1000003 + zlib.crc32(repr((cfg.fl, N, M, cfg.abits)).encode()) % 1000, 60 if tier == 'quick' else 1500)
 
 
